@@ -4,7 +4,7 @@ import itertools
 PROPERTY = 'C11'
 LEVEL = 'exploration'
 TIMEOUT_S = 1200
-RULE = ('n_v x spline path (uniform cubic, general degrees 2/3/4, non-uniform breaks) x boundary mode (fEq, null, periodic) x shift classes '
+RULE = ('n_v x velocity domain (symmetric, asymmetric, not containing 0) x spline path (uniform cubic, general degrees 2/3/4, non-uniform breaks) x boundary mode (fEq, null, periodic) x shift classes '
         'c*dt/dv in {0, +-0.3, +-1, +-2.5, +-(nv+1/2), +-(2nv+0.3)} with the sign obtained from c and from dt x r in {rMin, rp, rMax}; data = every unit '
         'vector, zero (isolates the affine boundary part), dense; oracle = exact-rational interpolation matrix evaluated at v-c*dt; outside the domain the '
         'independently coded closed-form equilibrium at (r, foot), 0, or the periodic image; feet within 1e-12*(vMax-vMin) of a boundary but not on it '
@@ -22,7 +22,10 @@ def cases(tier, seed):
     for nv, sp, edge in itertools.product(NV[tier], SPACES[tier], ('fEq', 'null', 'periodic')):
         if sp[1] >= nv:
             continue
-        out.append({'nv': nv, 'space': list(sp), 'edge': edge, 'cost': nv * nv})
+        for dom in ([-3.0, 3.0], [-7.0, 3.0], [1.0, 6.0]):
+            if tier == 'quick' and dom != [-3.0, 3.0] and nv != 7:
+                continue
+            out.append({'nv': nv, 'space': list(sp), 'edge': edge, 'domain': dom, 'cost': nv * nv})
     return out
 
 
@@ -40,9 +43,9 @@ def run_case(case):
 
     def V(sig, what):
         viols.setdefault(sig, {'sig': sig, 'what': what, 'detail': {}})
-    tag = 'nv=%d spline=%s edge=%s' % (nv, case['space'], edge)
+    tag = 'nv=%d spline=%s edge=%s domain=%r' % (nv, case['space'], edge, case['domain'])
     c = Constants()
-    bs = ops.mkspace(nv, -3.0, 3.0, deg, False, kind == 'cu', warp)
+    bs = ops.mkspace(nv, case['domain'][0], case['domain'][1], deg, False, kind == 'cu', warp)
     S = refspline.RefSpace(bs)
     cond = S.cond_inf()
     pts = np.asarray(bs.greville, dtype=float)
